@@ -80,7 +80,7 @@ def random_action(cl, rng, w, state):
         if kk in ('add', 'rem'):
             spec['x'] = rng.choice(state['memb_targets'])
         if kk == 'ver':
-            spec['v'] = rng.choice([0, 1, 2])
+            spec['v'] = rng.choice([0, 1, 2, 2, 5, 11, 11, 12])
         if kk == 'op' and state.get('pads'):
             spec['pad'] = rng.choice(state['pads'])
         if rng.random() < state.get('nocb', 0.0):
@@ -107,12 +107,20 @@ def random_action(cl, rng, w, state):
     if k == 'Restart':
         return ('Restart', rng.choice(sorted(restartable)))
     if k == 'KillAt':
-        # a step of some node that is killed at its kw-th primitive storage write
-        for _ in range(6):
+        # a step of some node that is killed at its kw-th primitive storage write; steps that do write to storage
+        # (a follower storing entries or snapshot data, a leader appending what was submitted to it) are preferred
+        cands = []
+        for _ in range(8):
             inner = random_action(cl, rng, dict(w, killat=0, crash=0, restart=0, brk=0, connect=0, start=0, stop=0), state)
             actor = cl._actor(inner)
             if actor is not None and cl.applicable(inner):
-                return ('KillAt', actor, rng.choice([1, 1, 2, 2, 3, 4, 5, 7]), list(inner))
+                cands.append((actor, inner))
+        writers = [c for c in cands if _writes_likely(cl, c[1])]
+        if writers and rng.random() < 0.7:
+            cands = writers
+        if cands:
+            actor, inner = rng.choice(cands)
+            return ('KillAt', actor, rng.choice([1, 1, 2, 2, 3, 4, 5, 7]), list(inner))
         return ('Crash', rng.choice(ids))
     if k == 'Start':
         # operator discipline: a fresh process is given the member list some running voter currently has
@@ -131,6 +139,24 @@ def random_action(cl, rng, w, state):
             return ('Compact', rng.choice(ids))
         return ('Stop', rng.choice(sorted(cand)))
     raise AssertionError(a)
+
+
+def _writes_likely(cl, act):
+    try:
+        if act[0] == 'Deliver':
+            import pysyncobj.pickle as sopickle
+            q = cl.net.chan.get((act[1], act[2])) or []
+            d = q[0].data
+            if d == sc.HELLO:
+                return False
+            m = sopickle.loads(d)
+            return m.get('type') == 'append_entries' and bool(m.get('entries') or m.get('serialized'))
+        if act[0] == 'Tick':
+            o = cl.nodes[act[1]].obj
+            return o._isLeader() and not getattr(o, '_SyncObj__commandsQueue').empty()
+    except Exception:
+        return False
+    return False
 
 
 def run_random(cfg, seed, steps, weights=None, maxcmd=12, extra=None):
@@ -157,17 +183,31 @@ def run_random(cfg, seed, steps, weights=None, maxcmd=12, extra=None):
                 if item[0] == 'boot':
                     boot_phase(cl, rng, trace, state)
                     continue
+                if item[0] == 'splitvote':
+                    splitvote_phase(cl, rng, trace, state)
+                    continue
                 if item[0] == 'reelect':
                     reelect_phase(cl, rng, trace, state, variant=item[1] if len(item) > 1 else None)
                     continue
                 for act in _script(cl, [item], rng):
                     if cl.applicable(act):
                         trace.append(cl.step(act))
+            votes = {}
             for _ in range(psteps):
                 act = random_action(cl, rng, ww, state)
                 if not cl.applicable(act):
                     continue
                 trace.append(cl.step(act))
+                # a process that dies right after it granted a vote (what it promised must be on disk by then)
+                if act[0] == 'Deliver' and cfg.get('journal') and ww.get('crash', 0) > 0:
+                    u = trace[-1].get('upd', {}).get(act[2])
+                    if u and u.get('alive'):
+                        v = (u.get('term'), u.get('votedFor'))
+                        if v != votes.get(act[2]) and u.get('votedFor') not in (None, sc.NIL) and rng.random() < 0.3:
+                            c = ('Crash', act[2])
+                            if cl.applicable(c):
+                                trace.append(cl.step(c))
+                        votes[act[2]] = v
     finally:
         cl.close()
     return trace
@@ -252,6 +292,61 @@ def boot_phase(cl, rng, trace, state):
         for n in ids:
             do(('Tick', n, 'h'))
         deliver_all()
+
+
+def splitvote_phase(cl, rng, trace, state):
+    """directed schedule: the leader is cut off; a follower whose log is behind and an up-to-date one stand in the
+    same term; the remaining voters hear the stale candidate first (they refuse it but learn the term), then the
+    other one (granted in a term they already know); one of them is killed and restarted right away."""
+    N = cl.nodes
+
+    def do(act):
+        if cl.applicable(act):
+            trace.append(cl.step(act))
+            return True
+        return False
+    voters = sorted(n for n in N if N[n].alive and N[n].voter)
+    ls = [(N[n].obj.raftCurrentTerm, n) for n in voters if N[n].obj._isLeader()]
+    if not ls:
+        return
+    L = max(ls)[1]
+    rest = [v for v in voters if v != L]
+    if len(rest) < 3:
+        return
+    last = lambda n: getattr(N[n].obj, '_SyncObj__raftLog')[-1][1]
+    iso = getattr(cl, 'script_isolated', None)
+    A = iso if iso in rest else min(rest, key=lambda n: (last(n), n))
+    B = max([v for v in rest if v != A], key=lambda n: (last(n), n))
+    others = [v for v in rest if v not in (A, B)]
+    for m in rest:
+        do(('Break', L, m)); do(('Notice', L, m)); do(('Notice', m, L))
+    for a in rest:
+        for b in rest:
+            if a < b:
+                do(('Notice', a, b)); do(('Notice', b, a)); do(('Connect', a, b)); do(('Connect', b, a))
+    for a in rest:
+        for b in rest:
+            if a != b and cl.net.chan.get((a, b)) and cl.net.chan[(a, b)][0].data == sc.HELLO:
+                do(('Deliver', a, b))
+    cl.script_isolated = None
+    do(('Tick', A, 'j'))
+    do(('Tick', B, 'j'))
+    for c in others:
+        while do(('Deliver', A, c)):
+            pass
+        while do(('Deliver', B, c)):
+            pass
+    if cl.cfg.get('journal') and others:
+        c = rng.choice(others)
+        if rng.random() < 0.5:
+            do(('Crash', c))
+        else:
+            do(('KillAt', c, rng.choice([1, 2, 3]), ['Tick', c, 'z']))
+        do(('Restart', c))
+    for c in others:
+        for x in (A, B):
+            while do(('Deliver', c, x)):
+                pass
 
 
 def reelect_phase(cl, rng, trace, state, variant=None):
